@@ -173,6 +173,11 @@ def _load_source_file(path: Path, file_format: str) -> Dict[str, List[Any]]:
 
             for row in reader:
                 for original_field, value in row.items():
+                    if original_field is None:
+                        # DictReader collects surplus cells under the key None
+                        raise ConfigurationError(
+                            f"CSV source row {reader.line_num} has more cells than the header"
+                        )
                     field = fieldname_map[original_field]
                     columns[field].append(
                         _coerce_scalar(value) if value is not None else None
@@ -308,8 +313,17 @@ def _load_and_process_source(
     if not resolved.exists():
         raise ConfigurationError(f"run_space source file not found: {src.path}")
 
-    # Load columns
-    columns = _load_source_file(resolved, src.format)
+    # Load columns.  Content the parsers cannot digest (truncated JSON, bytes that
+    # are not UTF-8, a directory in place of the file) is a configuration problem
+    # of the run space like a missing file, not an internal error.
+    try:
+        columns = _load_source_file(resolved, src.format)
+    except ConfigurationError:
+        raise
+    except (OSError, ValueError, csv.Error) as exc:
+        raise ConfigurationError(
+            f"run_space source file {src.path} could not be read as {src.format}: {exc}"
+        ) from exc
 
     # Apply select transformation
     if src.select is not None:
